@@ -1,13 +1,15 @@
 (* modelrun-c10: runs the extracted model of the shared `metrics` binding (C10).
-   Input line:   <proto> <bound> <sets> <mode> <items>
+   Input line:   <proto> <bound> <faults> <sets> <mode> <items>
+     faults = id,id | -                  queries for which reading one of their chunk files fails
      bound  = c,c,c | -                  chunk set `metrics` is bound to when the schedule starts
      proto  = fixed | unlocked           (plan under the lock | lock released before planning)
      sets   = id:c,c,c;id:c,...          chunk set selected for each query (may be empty: "3:")
-     mode   = cmds  with items  S1,S2,R1,R2   (Start i / Resume i, the harness's commands)
+     mode   = cmds  with items  S1,S2,R1,C2   (Start i / Resume i / Cancel i, the harness's commands)
             | sched with items  1,1,2,1,...   (one atomic step of that query per entry)
    Output line: q<id>=<visible set or ->;...   in the order of `sets`
      visible = chunks scanned by the query that belong to its own selection (the
-     rows it returns come from exactly these); - = the query did not complete *)
+     rows it returns come from exactly these); - = the query did not complete;
+     ! = a query with an injected failure or a cancelled one (its own outcome is not compared) *)
 
 let parse_sets (s : string) : (n * n list) list =
   List.map (fun item ->
@@ -21,23 +23,26 @@ let show_set (l : n list) : string =
 
 let run_line (line : string) : string =
   match split_on ' ' (String.trim line) with
-  | [proto; bound; sets; mode; items] ->
+  | [proto; bound; faults; sets; mode; items] ->
       let proto = (match proto with "fixed" -> proto_fixed | "unlocked" -> proto_unlocked_plan | _ -> failwith "bad proto") in
       let sets = parse_sets sets in
       let ids = List.map fst sets in
+      let faults = (if faults = "-" then [] else List.map n_of_string (split_on ',' faults)) in
+      let cancelled = ref [] in
       let bound = (if bound = "-" then [] else List.map n_of_string (split_on ',' bound)) in
       let st =
         (match mode with
          | "cmds" ->
              let cs = List.map (fun t ->
                let id = n_of_string (String.sub t 1 (String.length t - 1)) in
-               match t.[0] with 'S' -> Start id | 'R' -> Resume id | _ -> failwith ("bad cmd " ^ t)) (split_on ',' items) in
-             run_cmds proto sets cs [] (init_bound bound ids)
+               match t.[0] with 'S' -> Start id | 'R' -> Resume id | 'C' -> (cancelled := id :: !cancelled; Cancel id) | _ -> failwith ("bad cmd " ^ t)) (split_on ',' items) in
+             run_cmds faults proto sets cs [] (init_bound bound ids)
          | "sched" -> run proto sets (List.map n_of_string (split_on ',' items)) (init_bound bound ids)
          | _ -> failwith "bad mode") in
       String.concat ";" (List.map (fun id ->
         Printf.sprintf "q%s=%s" (string_of_n id)
-          (match visible sets st id with Some v -> show_set v | None -> "-")) ids)
+          (if List.mem id faults || List.mem id !cancelled then "!"
+           else match visible sets st id with Some v -> show_set v | None -> "-")) ids)
   | _ -> failwith ("bad line: " ^ line)
 
 let () = serve run_line
